@@ -4,7 +4,7 @@ import gfpy
 from vlib import fmt_list
 
 PID = 'C03'
-LEVEL = 'fault_enumeration'
+LEVEL = 'proof'
 RULE = ('fault enumeration: for all 48 sizes a random codeword with error patterns of every weight 0..t per block (t = floor(k/2)), positions '
         'forced into the data part, the EC part, both, the first and the last codeword of every block, all blocks at once; every single '
         'position of every size with a random wrong value; plus the same damage applied as flipped modules of the rendered symbol through '
